@@ -86,7 +86,9 @@ def correspondence(ctx):
         "locations, overlapping, missing, none), algorithm lists (subsets/orders of sha256/384/512, duplicates, empty, unknown "
         "names), exclude patterns, strip prefixes, both switches; InTotoRun with a helper command that writes/deletes files, "
         "InTotoRecordStart/Stop around the same operations, InTotoMatchProducts against disturbed product maps. "
-        "histories in one process (two RecordArtifacts calls, InTotoRun, InTotoRecordStart/Stop, RecordArtifacts then "
+        "file and directory names with bytes a normaliser might touch (backslashes incl. d\\f next to d/f and a\\b\\c next to a/b/c and "
+        "a\\b/c, a name that is just a backslash, trailing dot or space, colon, upper/lower-case twins, NFC/NFD twins), each run "
+        "five times to expose dependence on map order; histories in one process (two RecordArtifacts calls, InTotoRun, InTotoRecordStart/Stop, RecordArtifacts then "
         "InTotoMatchProducts) between whose snapshots files are rewritten in place with other bytes of the same length and an "
         "unchanged modification time (old time restored, or one fixed time before and after). "
         "non-trivial = the implementation's result is not an empty record; distinct = distinct input JSON. "
